@@ -143,6 +143,7 @@ func runRaw(c *wk.Case) {
 	c.Class(fmt.Sprintf("raw|tables=%s|head=%v|nil=%v", bucket(nonNil), hasHead, nonNil != len(tables)))
 
 	var first []byte
+	var lastIn map[string][]byte
 	for oi, ord := range orders(t) {
 		in := cloneTables(tables)
 		w := simio.NewWriter()
@@ -169,6 +170,51 @@ func runRaw(c *wk.Case) {
 			first = w.Disk
 		} else if !bytes.Equal(first, w.Disk) {
 			c.Count("order_dependent_bytes_seen_(judged_under_C01)", 1)
+		}
+		lastIn = in
+	}
+
+	// ---- history: the table map that has just been written is changed in
+	// place (same slices, same lengths, other bytes - a program that patches a
+	// table and writes the font again) and written a second time; the second
+	// file must be well-formed for the bytes it was given then
+	if t.Chance(1, 3) {
+		changed := 0
+		var tagsSorted []string
+		for tag := range lastIn {
+			tagsSorted = append(tagsSorted, tag)
+		}
+		sort.Strings(tagsSorted)
+		for _, tag := range tagsSorted {
+			d := lastIn[tag]
+			if len(d) == 0 || !t.Chance(1, 2) {
+				continue
+			}
+			for k := 1 + t.Draw(3); k > 0; k-- {
+				d[t.Draw(len(d))] ^= byte(1 + t.Draw(255))
+			}
+			changed++
+		}
+		if changed > 0 {
+			w := simio.NewWriter()
+			var nret int64
+			var err error
+			pi := c.Guard(func() { nret, err = header.Write(w, scaler, lastIn) })
+			if pi != nil {
+				c.FailPanic("header.Write(second write)", pi)
+			}
+			c.Count("writes", 1)
+			c.Count("second_writes_after_in-place_change", 1)
+			if err != nil {
+				c.Fail("write-error", "header.Write/second-write", "header.Write failed on a fault-free writer: %v", err)
+			}
+			if nret != int64(len(w.Disk)) {
+				c.Fail("write-count", "header.Write/second-write", "returned count %d, file has %d bytes", nret, len(w.Disk))
+			}
+			if where, msg := simgen.Fsck(w.Disk, scaler, lastIn); where != "" {
+				c.Fail("fsck", "header.Write/second-write/"+where, "%s (after %d tables were changed in place and the same map was written again; tables %v)", msg, changed, tags)
+			}
+			readBack(c, "header.Write(second write)", w.Disk, scaler, lastIn)
 		}
 	}
 }
